@@ -55,6 +55,12 @@ impl Core {
     fn log(&self, v: Value) -> Result<()> {
         let (fail, gate) = {
             let mut s = self.s.lock().unwrap();
+            if s.calls.len() >= STORM_CALLS {
+                // invoked over and over for one request: the count is the observation; park until the case is torn down
+                drop(s);
+                storm_park();
+                return Err(Error::ReqHandlerError(std::io::Error::other("handler invoked without end")));
+            }
             s.calls.push(v);
             (s.fail, s.block.clone())
         };
